@@ -111,7 +111,8 @@ def _check_call(case, ctx, src, out, call, b_old, b_new, want_size, width, tag="
         return False
     fin = inc[np.isfinite(inc)]
     rtol = 64 * eps * ((float(np.max(np.abs(fin))) if len(fin) else 0.0) + 1) + 4 * n * eps
-    bad = np.abs(p - p_ref) > rtol * p_ref + 1e-300
+    # absolute floor: float32 probabilities below the smallest normal number are sub-normal (few significant bits)
+    bad = np.abs(p - p_ref) > rtol * p_ref + (1e-30 if width == "float32" else 1e-300)
     if bad.any():
         i = int(np.argmax(bad))
         ctx.fail(f"{tag}p-values", f"selection probability of particle {i} is {p[i]!r}; incremental weight "
@@ -185,7 +186,7 @@ def _run_mode(case, ctx):
                 inc = sc.incr(lw, prev, b)
                 fin = inc[np.isfinite(inc)]
                 rtol = 64 * eps * ((float(np.max(np.abs(fin))) if len(fin) else 0.0) + 1) + 4 * case["n"] * eps
-                if len(p) != len(p_ref) or (np.abs(p - p_ref) > rtol * p_ref + 1e-300).any():
+                if len(p) != len(p_ref) or (np.abs(p - p_ref) > rtol * p_ref + (1e-30 if case["width"] == "float32" else 1e-300)).any():
                     ctx.fail("run:p-values", f"iteration {t}: selection probabilities differ from the normalised incremental weights", case)
             prev = b
     return {"nontrivial": nt, "labels": ["run", case["kernel"], case["ns"], case["width"]]}
